@@ -19,6 +19,10 @@ from ..core.termio import INT, REAL, BOOL, mk_type
 ALL = ["F%d" % i for i in range(1, 18)]
 
 
+class InjectedInterrupt(KeyboardInterrupt):
+    """an interruption that is not an Exception (Ctrl-C, SystemExit style) landing inside a callback"""
+
+
 class Injected(Exception):
     pass
 
@@ -234,7 +238,10 @@ def inject(walker, thunk, kth):
         def wrapped(formula, *a, **kw):
             count[0] += 1
             if count[0] == kth:
-                raise Injected("injected failure at callback %d" % kth)
+                # odd positions: an ordinary error; even positions: an interruption outside Exception
+                if kth % 2:
+                    raise Injected("injected failure at callback %d" % kth)
+                raise InjectedInterrupt("injected interruption at callback %d" % kth)
             return fn(formula, *a, **kw)
         return wrapped
     for nt, fn in orig.items():
@@ -242,7 +249,7 @@ def inject(walker, thunk, kth):
     fired = False
     try:
         thunk()
-    except Injected:
+    except (Injected, InjectedInterrupt):
         fired = True
     except Exception:
         fired = True
@@ -396,6 +403,103 @@ def run_shard(args):
     return res
 
 
+# ---------------------------------------------------------------------------------------
+# a walk that fails on an operator the walker does not know yet, then the operator is registered
+
+DWF_WALKERS = ("simplifier", "fvo", "ao", "qfo", "typeso", "theoryo", "substituter")
+
+
+def _dwf_world(wname, fail_first):
+    """fresh environment; returns the observation of walking (op(x, y) & x) after the handler was registered
+    (fail_first: the same walk was attempted, and failed, before the registration)"""
+    import pysmt.operators as ops
+    from pysmt.type_checker import SimpleTypeChecker
+    env = Environment()
+    push_env(env)
+    try:
+        m = env.formula_manager
+        idx = _dwf_op()
+        env.add_dynamic_walker_function(idx, SimpleTypeChecker, SimpleTypeChecker.walk_bool_to_bool)
+        x, y = m.Symbol("x"), m.Symbol("y")
+        node = m.create_node(idx, (x, y))
+        f = m.And(node, x)
+        walker = getattr(env, wname)
+        cls = type(walker)
+        if wname in ("simplifier", "substituter"):
+            handler = (lambda self, formula, args, **kw: m.create_node(idx, tuple(args)))
+        elif wname == "fvo":
+            handler = cls.walk_simple_args
+        elif wname == "ao":
+            handler = cls.walk_bool_op
+        elif wname == "qfo":
+            handler = cls.walk_all
+        else:
+            handler = cls.walk_combine
+
+        def call():
+            if wname == "simplifier":
+                return walker.simplify(f)
+            if wname == "substituter":
+                return walker.substitute(f, {y: m.TRUE()})
+            if wname == "fvo":
+                return sorted(v.symbol_name() for v in walker.get_free_variables(f))
+            if wname == "ao":
+                return sorted(str(a) for a in walker.get_atoms(f))
+            if wname == "qfo":
+                return walker.is_qf(f)
+            if wname == "typeso":
+                return sorted(str(t) for t in walker.get_types(f))
+            return str(walker.get_theory(f))
+        first = None
+        if fail_first:
+            try:
+                call()
+                first = "did-not-fail"
+            except Exception as e:
+                first = type(e).__name__
+        env.add_dynamic_walker_function(idx, cls, handler)
+        try:
+            r = call()
+            obs = ("ok", str(r).replace("c15op", "op"))
+        except Exception as e:
+            obs = ("exc", type(e).__name__)
+        return first, obs
+    finally:
+        pop_env()
+
+
+_DWF_OP = []
+
+
+def _dwf_op():
+    import pysmt.operators as ops
+    if not _DWF_OP:
+        _DWF_OP.append(ops.new_node_type(node_str="c15op"))
+    return _DWF_OP[0]
+
+
+def run_dwf_shard(wname):
+    res = Result()
+    res.count("evaluations")
+    try:
+        first, got = _dwf_world(wname, True)
+        _, want = _dwf_world(wname, False)
+    except Exception as e:
+        res.violation("fault", "harness:dwf", "dynamic-walker scenario for %s raised %r" % (wname, e), {"dwf": wname})
+        return res
+    if first == "did-not-fail":
+        res.outcome("dwf:did-not-fail")
+        return res
+    res.count("nontrivial")
+    res.outcome("dwf:%s" % ("ok" if got == want else "differs"))
+    if got != want:
+        res.violation("fault", "fault:unsupported-operator=>%s-after-registration:differs" % wname,
+                      "%s: a walk over an operator without handler failed (%s); after the handler was registered the "
+                      "same walk gives %r, in an environment that never made the failing walk %r"
+                      % (wname, first, got, want), {"dwf": wname})
+    return res
+
+
 def run(ctx):
     ctx.level = "fault_enumeration"
     q = ctx.quick
@@ -424,6 +528,7 @@ def run(ctx):
         shards.append((fails[i:i + chunk], prefixes, names, ctx.seed))
     ctx.rng.shuffle(shards)
     ctx.pmap(run_shard, shards)
+    ctx.pmap(run_dwf_shard, list(DWF_WALKERS))
     from . import c15_solver
     c15_solver.run(ctx)
     ctx.coverage.update({"failing_calls": len(fails), "prefixes": len(prefixes)})
@@ -434,6 +539,11 @@ def replay(rec):
     if c.get("part") == "solver":
         from . import c15_solver
         return c15_solver.replay(rec)
+    if "dwf" in c:
+        r = run_dwf_shard(c["dwf"])
+        if r.violations:
+            return False, r.violations[0]["msg"]
+        return True, "the %s walks the newly registered operator as in an untouched environment" % c["dwf"]
     prefix = tuple(tuple(e) for e in c["prefix"])
     failing = tuple(c["failing"])
     bad = run_case(prefix, failing, c.get("names", ALL))
